@@ -1,6 +1,516 @@
-//! C22 — not built yet.
-use vcommon::Args;
+//! C22 — a match rule's string form parses back to the same rule.
+//!
+//! Part A (rules → strings): every rule of a product of per-key option sets — argument values over
+//! a set of awkward strings (quotes, commas, backslashes, empty, space, '=') at indices 0, 1, 63 —
+//! is built through `MatchRule::builder()`, formatted with `Display`, and the string is read back
+//! (a) by the conformant parser `refmatch::parse` and (b) by `MatchRule::try_from`; both must give
+//! the rule that was built. Single-key rules give each defect its identity; a failure of a
+//! multi-key rule none of whose keys fails alone is reported as a key interaction.
+//!
+//! Part B (strings → rules): every string assembled from at most three `key=value` tokens over a
+//! token alphabet (quoted, unquoted, oddly quoted, invalid forms); for every string zbus accepts:
+//! parse → format → parse gives an equal rule.
+//!
+//! Thorough tier: the conformant parser itself is audited against `dbus-daemon` (AddMatch
+//! accept/reject for every string of part B, and delivery for argument-only rules).
 
-pub fn main(_args: &Args) -> i32 {
-    vcommon::machinery_failure("C22: check not built yet")
+use std::collections::BTreeSet;
+
+use serde_json::json;
+use vcommon::{catch, enumerate, hash64, machinery_failure, par_for, Args, Report, Tier, Violation};
+use zbus::MatchRule;
+
+use crate::{
+    c21::{build_rule, Opt},
+    refmatch::{self, MType, ParseOpts, RArg, RMsg, RRule},
+};
+
+pub const VALUES: &[&str] = &["", "a", "'", ",", "\\", "'\\''", "a,b", "=", " ", "a'b", "','"];
+
+fn slots() -> Vec<Vec<Option<Opt>>> {
+    let s = |x: &str| x.to_string();
+    let arg = |i: u8| -> Vec<Option<Opt>> {
+        let mut v = vec![None];
+        v.extend(VALUES.iter().map(|x| Some(Opt::Arg(i, s(x)))));
+        v
+    };
+    vec![
+        vec![None, Some(Opt::Type(MType::Signal)), Some(Opt::Type(MType::Error))],
+        vec![None, Some(Opt::Sender(s(":1.1"))), Some(Opt::Sender(s("a.wk")))],
+        vec![None, Some(Opt::Interface(s("i.A")))],
+        vec![None, Some(Opt::Member(s("A")))],
+        vec![None, Some(Opt::Path(s("/a"))), Some(Opt::PathNs(s("/a")))],
+        vec![None, Some(Opt::Dest(s(":1.2")))],
+        arg(0),
+        arg(1),
+        arg(63),
+        vec![None, Some(Opt::ArgPath(0, s("/a"))), Some(Opt::ArgPath(0, s("/")))],
+        vec![None, Some(Opt::ArgPath(63, s("/a")))],
+        vec![None, Some(Opt::Arg0Ns(s("a.b")))],
+    ]
+}
+
+/// How a string form was read back.
+#[derive(Clone, Debug, PartialEq, Eq)]
+enum Back {
+    Same,
+    Different(String),
+    Error(String),
+    Panic(String),
+}
+
+impl Back {
+    fn class(&self) -> &'static str {
+        match self {
+            Back::Same => "same-rule",
+            Back::Different(_) => "different-rule",
+            Back::Error(_) => "parse-error",
+            Back::Panic(_) => "panic",
+        }
+    }
+    fn text(&self) -> String {
+        match self {
+            Back::Same => "the same rule".into(),
+            Back::Different(d) => format!("a different rule: {d}"),
+            Back::Error(e) => format!("an error: {e}"),
+            Back::Panic(e) => format!("a panic: {e}"),
+        }
+    }
+}
+
+struct Obs {
+    text: String,
+    conformant: Back,
+    zbus: Back,
+}
+
+fn observe(rr: &RRule) -> Result<Obs, String> {
+    let z = build_rule(rr)?;
+    let text = match catch(|| z.to_string()) {
+        Ok(t) => t,
+        Err(p) => {
+            return Ok(Obs {
+                text: String::new(),
+                conformant: Back::Panic(p.clone()),
+                zbus: Back::Panic(p),
+            })
+        }
+    };
+    let conformant = match refmatch::parse(&text, ParseOpts::LENIENT) {
+        Ok(p) if p == *rr => Back::Same,
+        Ok(p) => Back::Different(refmatch::print(&p)),
+        Err(e) => Back::Error(e),
+    };
+    let zbus = match catch(|| MatchRule::try_from(text.as_str()).map(|r| (r == z, r.to_string()))) {
+        Ok(Ok((true, _))) => Back::Same,
+        Ok(Ok((false, s))) => Back::Different(s),
+        Ok(Err(e)) => Back::Error(e.to_string()),
+        Err(p) => Back::Panic(p),
+    };
+    Ok(Obs { text, conformant, zbus })
+}
+
+fn value_features(v: Violation, o: &Opt) -> Violation {
+    let val = match o {
+        Opt::Arg(_, s) | Opt::ArgPath(_, s) | Opt::Arg0Ns(s) | Opt::Sender(s) | Opt::Interface(s) | Opt::Member(s)
+        | Opt::Path(s) | Opt::PathNs(s) | Opt::Dest(s) => s.clone(),
+        Opt::Type(t) => t.as_str().to_string(),
+    };
+    v.feat("key", o.key().family())
+        .feat("value_has_quote", val.contains('\''))
+        .feat("value_has_comma", val.contains(','))
+        .feat("value_has_backslash", val.contains('\\'))
+        .feat("value_empty", val.is_empty())
+}
+
+const CL_CONF: &str = "string-form-read-back-by-conformant-parser";
+const CL_ZBUS: &str = "string-form-read-back-by-zbus";
+const CL_STABLE: &str = "parse-format-parse-stable";
+
+fn part_a(report: &Report, tier: Tier) {
+    let slots = slots();
+    // single-key table: [slot][opt] -> (conformant ok, zbus ok)
+    let mut ok_tab: Vec<Vec<(bool, bool)>> = vec![];
+    for slot in &slots {
+        let mut row = vec![];
+        for opt in slot {
+            let Some(o) = opt else {
+                row.push((true, true));
+                continue;
+            };
+            let mut rr = RRule::default();
+            o.apply(&mut rr);
+            let obs = observe(&rr).unwrap_or_else(|e| machinery_failure(&format!("C22: cannot build {}: {e}", refmatch::print(&rr))));
+            report.eval(1);
+            report.nontrivial(hash64(&("single", refmatch::print(&rr))));
+            report.outcome(&format!("single-key: conformant parser reads {}", obs.conformant.class()));
+            report.outcome(&format!("single-key: zbus reads {}", obs.zbus.class()));
+            report.sample(json!({"rule": refmatch::rule_to_json(&rr), "display": obs.text,
+                "conformant": obs.conformant.class(), "zbus": obs.zbus.class()}));
+            for (clause, back, who) in [(CL_CONF, &obs.conformant, "a conformant parser"), (CL_ZBUS, &obs.zbus, "MatchRule::try_from")] {
+                if *back != Back::Same {
+                    report.violation(
+                        value_features(
+                            Violation::new(
+                                clause,
+                                format!(
+                                    "rule {} is formatted as `{}`, which {who} reads as {}",
+                                    refmatch::rule_to_json(&rr),
+                                    obs.text,
+                                    back.text()
+                                ),
+                                json!({"rule": refmatch::rule_to_json(&rr)}),
+                            ),
+                            o,
+                        )
+                        .feat("kind", "single-key")
+                        .feat("outcome", back.class()),
+                    );
+                }
+            }
+            row.push((obs.conformant == Back::Same, obs.zbus == Back::Same));
+        }
+        ok_tab.push(row);
+    }
+    // product
+    let mut dims: Vec<usize> = slots.iter().map(|s| s.len()).collect();
+    if tier == Tier::Quick {
+        // quick: two of the three argument slots at a time are enough to see interactions between
+        // values; slot arg63 is restricted to {absent, "a", "'", ","}
+        dims[8] = 4;
+    }
+    let n = enumerate::product_size(&dims);
+    report.set("rules_in_product", json!(n));
+    const CHUNK: usize = 512;
+    par_for(n.div_ceil(CHUNK), 1, |ci| {
+      let mut local: Vec<u64> = vec![];
+      let mut n_eval = 0u64;
+      for ri in ci * CHUNK..((ci + 1) * CHUNK).min(n) {
+        let mut idx = vec![];
+        enumerate::nth_product(&dims, ri, &mut idx);
+        if idx.iter().filter(|i| **i != 0).count() < 2 {
+            continue;
+        }
+        let mut rr = RRule::default();
+        for (s, i) in idx.iter().enumerate() {
+            if let Some(o) = &slots[s][*i] {
+                o.apply(&mut rr);
+            }
+        }
+        let obs = match observe(&rr) {
+            Ok(o) => o,
+            Err(e) => machinery_failure(&format!("C22: cannot build {}: {e}", refmatch::print(&rr))),
+        };
+        let all_conf = idx.iter().enumerate().all(|(s, i)| ok_tab[s][*i].0);
+        let all_zbus = idx.iter().enumerate().all(|(s, i)| ok_tab[s][*i].1);
+        n_eval += 1;
+        // non-trivial: some argument value needs quoting or is empty
+        if rr.args.values().any(|v| v.is_empty() || v.contains(['\'', ',', '\\', ' ', '='])) {
+            local.push(hash64(&("product", ri)));
+        }
+        for (clause, back, singles_ok, who) in [
+            (CL_CONF, &obs.conformant, all_conf, "a conformant parser"),
+            (CL_ZBUS, &obs.zbus, all_zbus, "MatchRule::try_from"),
+        ] {
+            if *back == Back::Same {
+                continue;
+            }
+            if !singles_ok {
+                // some key of this rule already fails alone: explained by the single-key finding
+                report.add("product_failures_explained_by_single_key_findings", 1);
+                continue;
+            }
+            let keys: Vec<String> = rr.keys().iter().map(|k| k.family().to_string()).collect();
+            report.violation(
+                Violation::new(
+                    clause,
+                    format!(
+                        "rule {} is formatted as `{}`, which {who} reads as {} (each key alone round-trips)",
+                        refmatch::rule_to_json(&rr),
+                        obs.text,
+                        back.text()
+                    ),
+                    json!({"rule": refmatch::rule_to_json(&rr)}),
+                )
+                .feat("kind", "key-interaction")
+                .feat("keys", keys.join("+"))
+                .feat("outcome", back.class()),
+            );
+        }
+        // the daemon's one-matcher-per-argument-index restriction, recorded only
+        if ri % 997 == 0 && obs.conformant == Back::Same {
+            if refmatch::parse(&obs.text, ParseOpts::DAEMON).is_err() {
+                report.outcome("product: valid by the grammar but refused by dbus-daemon (argument index used twice / more than 16 tokens)");
+            } else {
+                report.outcome("product: round trip through both parsers");
+            }
+        }
+      }
+      report.eval(n_eval);
+      report.nontrivial_many(local);
+    });
+}
+
+// ---------------------------------------------------------------------------------------------
+// Part B: strings
+
+pub fn tokens() -> Vec<&'static str> {
+    vec![
+        "type='signal'",
+        "type=signal",
+        "type='bogus'",
+        "sender=':1.1'",
+        "sender='a.wk'",
+        "interface='i.A'",
+        "member='A'",
+        "path='/a'",
+        "path_namespace='/a'",
+        "destination=':1.2'",
+        "arg0='a'",
+        "arg0=''",
+        "arg0=a",
+        "arg0=",
+        "arg0='a,b'",
+        "arg0='a''b'",
+        "arg0='a'\\''b'",
+        "arg0=a\\'b",
+        "arg0='''",
+        "arg0='\\'",
+        "arg0=\\",
+        "arg0='a b'",
+        "arg0='='",
+        "arg1='x'",
+        "arg63='x'",
+        "arg64='x'",
+        "arg0path='/a'",
+        "arg0path='/a/'",
+        "arg0namespace='a.b'",
+        "arg0namespace='a.'",
+        "arg+1='x'",
+        "arg1pathx='/a'",
+        "arg='x'",
+        "eavesdrop='true'",
+        "",
+        " member='A'",
+        "member='A' ",
+        "member = 'A'",
+        "member",
+        "bogus='x'",
+    ]
+}
+
+pub fn rule_strings(max_tokens: usize) -> Vec<String> {
+    let toks = tokens();
+    let k = toks.len();
+    let mut out = vec![];
+    let mut v = vec![];
+    // index 0 is the empty string (no tokens)
+    for i in 0..enumerate::count_strings(k, max_tokens) {
+        enumerate::nth_string(k, i, &mut v);
+        out.push(v.iter().map(|t| toks[*t]).collect::<Vec<_>>().join(","));
+    }
+    out
+}
+
+fn part_b(report: &Report) -> Vec<String> {
+    let strings = rule_strings(3);
+    report.set("rule_strings", json!(strings.len()));
+    par_for(strings.len(), 64, |i| {
+        let s = &strings[i];
+        report.eval(1);
+        let conf = refmatch::parse(s, ParseOpts::LENIENT);
+        let z1 = catch(|| MatchRule::try_from(s.as_str()).map(|r| r.into_owned()));
+        let class = match (&z1, &conf) {
+            (Err(_), _) => "string: zbus panics",
+            (Ok(Ok(_)), Ok(_)) => "string: accepted by zbus and by the conformant parser",
+            (Ok(Ok(_)), Err(_)) => "string: accepted by zbus only",
+            (Ok(Err(_)), Ok(_)) => "string: accepted by the conformant parser only",
+            (Ok(Err(_)), Err(_)) => "string: rejected by both",
+        };
+        report.outcome(class);
+        let r1 = match z1 {
+            Ok(Ok(r)) => r,
+            Ok(Err(_)) => return,
+            Err(p) => {
+                report.violation(
+                    Violation::new(CL_STABLE, format!("MatchRule::try_from({s:?}) panics: {p}"), json!({"string": s}))
+                        .feat("kind", "string")
+                        .feat("outcome", "panic"),
+                );
+                return;
+            }
+        };
+        report.nontrivial(hash64(&("string", s)));
+        if i % 1500 == 7 {
+            report.sample(json!({"string": s, "zbus_reads": r1.to_string(), "conformant": conf.as_ref().map(refmatch::print).map_err(|e| e.clone())}));
+        }
+        let s2 = match catch(|| r1.to_string()) {
+            Ok(t) => t,
+            Err(p) => {
+                report.violation(
+                    Violation::new(CL_STABLE, format!("formatting the rule parsed from {s:?} panics: {p}"), json!({"string": s}))
+                        .feat("kind", "string")
+                        .feat("outcome", "panic"),
+                );
+                return;
+            }
+        };
+        let back = match catch(|| MatchRule::try_from(s2.as_str()).map(|r| r == r1)) {
+            Ok(Ok(true)) => return,
+            Ok(Ok(false)) => "different-rule",
+            Ok(Err(_)) => "parse-error",
+            Err(_) => "panic",
+        };
+        report.violation(
+            Violation::new(
+                CL_STABLE,
+                format!("{s:?} is accepted, formats as {s2:?}, and that gives {back} when parsed again"),
+                json!({"string": s}),
+            )
+            .feat("kind", "string")
+            .feat("outcome", back)
+            .feat("value_has_quote", r1.args().iter().any(|(_, v)| v.contains('\'')))
+            .feat("value_has_comma", r1.args().iter().any(|(_, v)| v.contains(','))),
+        );
+    });
+    strings
+}
+
+// ---------------------------------------------------------------------------------------------
+// audit of the conformant parser against dbus-daemon
+
+fn audit(report: &Report, strings: &[String]) {
+    use refmatch::audit::{Bus, Pair};
+    let lib = refmatch::ffi::Lib::load().unwrap_or_else(|e| machinery_failure(&format!("C22 audit: {e}")));
+    let bus = Bus::start("c22-bus").unwrap_or_else(|e| machinery_failure(&format!("C22 audit: {e}")));
+    let pair = Pair::new(&lib, &bus).unwrap_or_else(|e| machinery_failure(&format!("C22 audit: {e}")));
+    let (mut n_acc, mut n_rej, mut n_deliv) = (0u64, 0u64, 0u64);
+    let mut masked = BTreeSet::new();
+    for s in strings {
+        // Masks: the daemon's tokenizer has two quirks that are artefacts of its loop, not of the
+        // grammar: a key that is empty stops progress (the rule is then accepted with the tokens
+        // seen so far), which affects strings with an empty token followed by more text.
+        let want = refmatch::parse(s, ParseOpts::DAEMON);
+        let got = pair.r.add_match(s);
+        if got.is_ok() {
+            if let Err(e) = pair.r.remove_match(s) {
+                machinery_failure(&format!("C22 audit: RemoveMatch({s:?}) after a successful AddMatch: {e}"));
+            }
+        }
+        if want.is_ok() != got.is_ok() {
+            if empty_key_quirk(s) {
+                masked.insert("empty token followed by further tokens (daemon tokenizer stalls on an empty key)");
+                continue;
+            }
+            machinery_failure(&format!(
+                "C22 audit: conformant parser and dbus-daemon disagree on {s:?}: refmatch {:?}, daemon {:?}",
+                want.map(|r| refmatch::print(&r)),
+                got
+            ));
+        }
+        match &want {
+            Ok(_) => n_acc += 1,
+            Err(_) => n_rej += 1,
+        }
+        // delivery check for rules that constrain nothing but string arguments
+        if let Ok(r) = &want {
+            let only_args = !r.args.is_empty() && r.keys().len() == r.args.len() && r.args.keys().all(|i| *i <= 1);
+            if only_args && r.args.values().all(|v| !v.is_empty()) {
+                let mk = |alter: bool| -> RMsg {
+                    let mut args = vec![];
+                    for i in 0..2u8 {
+                        let v = r.args.get(&i).cloned().unwrap_or_else(|| "zz".into());
+                        args.push(RArg::Str(if alter && r.args.contains_key(&i) { format!("{v}~") } else { v }));
+                    }
+                    RMsg {
+                        mtype: MType::Signal,
+                        sender: None,
+                        interface: Some("i.A".into()),
+                        member: Some("A".into()),
+                        path: Some("/a".into()),
+                        destination: None,
+                        args,
+                    }
+                };
+                match pair.deliveries(s, &[mk(false), mk(true)]) {
+                    Ok(Ok(d)) if d == [true, false] => n_deliv += 1,
+                    other => machinery_failure(&format!(
+                        "C22 audit: rule string {s:?} read by refmatch as {}: signals with exactly these argument values / altered values were delivered {other:?}, expected [true, false]",
+                        refmatch::print(r)
+                    )),
+                }
+            }
+        }
+    }
+    report.set(
+        "audit_conformant_parser_vs_dbus_daemon",
+        json!({"strings": strings.len(), "accepted_by_both": n_acc, "rejected_by_both": n_rej,
+               "argument_values_confirmed_by_delivery": n_deliv, "masked": masked.into_iter().collect::<Vec<_>>()}),
+    );
+    report.assume("refmatch::parse agrees with the installed dbus-daemon's AddMatch on every enumerated rule string (accept/reject, and argument values by delivery)");
+}
+
+/// An empty key (empty token, or whitespace only before '=') not at the very end of the string.
+fn empty_key_quirk(s: &str) -> bool {
+    let parts: Vec<&str> = s.split(',').collect();
+    parts.iter().enumerate().any(|(i, p)| p.trim().is_empty() && i + 1 < parts.len())
+}
+
+// ---------------------------------------------------------------------------------------------
+
+fn replay(path: &str) -> i32 {
+    let v = vcommon::load_replay(path);
+    if let Some(s) = v["replay"]["string"].as_str() {
+        println!("string: {s:?}");
+        println!("conformant parser: {:?}", refmatch::parse(s, ParseOpts::LENIENT).map(|r| refmatch::print(&r)));
+        match catch(|| MatchRule::try_from(s).map(|r| r.into_owned())) {
+            Ok(Ok(r1)) => {
+                let s2 = r1.to_string();
+                println!("zbus accepts; formats as {s2:?}");
+                let again = catch(|| MatchRule::try_from(s2.as_str()).map(|r| r == r1));
+                println!("parsed again equal: {again:?}");
+                return if matches!(again, Ok(Ok(true))) { 0 } else { 1 };
+            }
+            other => {
+                println!("zbus: {other:?}");
+                return 0;
+            }
+        }
+    }
+    let rr = refmatch::rule_from_json(&v["replay"]["rule"]);
+    println!("rule: {}", refmatch::rule_to_json(&rr));
+    match observe(&rr) {
+        Err(e) => {
+            println!("MatchRule::builder() refused the rule: {e}");
+            0
+        }
+        Ok(o) => {
+            println!("Display: {}", o.text);
+            println!("canonical conformant form: {}", refmatch::print(&rr));
+            println!("conformant parser reads back {}", o.conformant.text());
+            println!("MatchRule::try_from reads back {}", o.zbus.text());
+            if o.conformant == Back::Same && o.zbus == Back::Same {
+                0
+            } else {
+                1
+            }
+        }
+    }
+}
+
+pub fn main(args: &Args) -> i32 {
+    if let Some(p) = &args.replay {
+        return replay(p);
+    }
+    let report = Report::new("C22", args.tier, args.seed, "exploration");
+    part_a(&report, args.tier);
+    let strings = part_b(&report);
+    if args.tier == Tier::Thorough || args.extra.iter().any(|a| a == "--audit") {
+        audit(&report, &strings);
+    }
+    report.assume("the conformant parser (refmatch::parse) implements the bus daemon's documented quoting rules; it is lenient about the same argument index appearing in argN and argNpath/arg0namespace, which the specification does not forbid");
+    report.finish(
+        "part A: every rule of the product of key option sets (argument values over awkward strings at indices 0/1/63) built with MatchRule::builder, Display, read back by refmatch::parse and MatchRule::try_from; part B: every string of <= 3 tokens over the token alphabet, for accepted ones parse-format-parse. non-trivial = distinct single-key rules / accepted strings / sampled product rules",
+        true,
+    )
 }
